@@ -322,3 +322,23 @@ Proof.
   replace (is_method s_PATCH s_PATCH) with true by reflexivity.
   unfold update_rule, decode_body. rewrite Hb, Ht. reflexivity.
 Qed.
+
+(** ** (6) the request body as bytes: everything proved about [serve_http] for every tree holds for
+    the tree the reader of JsonApiBytes.v makes of any text *)
+From ApiFu Require Import JsonApi.JsonApiBytes.
+Theorem raw_request_spec pmt choose (Hchoose : choose_ok choose) sch in_range (r : raw_request) :
+  exists st bd c, serve_http fixed pmt choose sch (request_of in_range r) = Resp st media_type bd c /\
+                  oracle pmt sch (request_of in_range r) (Some (st, media_type, Some bd)) = None.
+Proof. apply model_satisfies_spec. assumption. Qed.
+
+(** a text that is not exactly one JSON value (empty, truncated, followed by further bytes - a NUL
+    byte included) is no request document *)
+Theorem not_one_value_no_document in_range text :
+  Transport.JsonText.parse_text Transport.EnvelopeModel.StdJson (numval_of in_range) text <> Transport.EnvelopeModel.PTree
+    match Transport.JsonText.parse_text Transport.EnvelopeModel.StdJson (numval_of in_range) text with
+    | Transport.EnvelopeModel.PTree j => j | Transport.EnvelopeModel.PTrail j => j | Transport.EnvelopeModel.PBad => Transport.EnvelopeModel.JNull end ->
+  body_of_text in_range text = BNone.
+Proof.
+  unfold body_of_text. destruct (Transport.JsonText.parse_text Transport.EnvelopeModel.StdJson (numval_of in_range) text); try reflexivity.
+  intro H. contradiction H. reflexivity.
+Qed.
